@@ -58,10 +58,107 @@ func Hook(s uint32) {
 		*Trace = append(*Trace, s)
 	}
 	if Limit > 0 && Steps > Limit {
+		if SampleAt[0] > 0 && sampleN < len(SampleAt) {
+			// time budget of a decode: remember where the library is at a few checkpoints past the
+			// bound before giving up, so that the report can name the function that holds the loop
+			Samples[sampleN] = captureStack()
+			Limit = SampleAt[sampleN]
+			sampleN++
+			if sampleN < len(SampleAt) {
+				return
+			}
+			SampleAt[0] = 0
+		}
 		Limit = 0
 		HangHit, HangSite = true, s
 		panic(HangPanic{Site: s})
 	}
+}
+
+// SampleAt, when SampleAt[0] > 0, turns the budget into a ladder: the stack is
+// sampled when Steps passes Limit, then Limit moves to SampleAt[0], SampleAt[1],
+// …, and the panic is raised at the last rung.
+var (
+	SampleAt [3]int64
+	Samples  [3][]string
+	sampleN  int
+)
+
+// ArmLadder sets a step budget with stack samples at bound, 1.5×bound and 2×bound.
+func ArmLadder(bound int64) {
+	Limit = Steps + bound
+	SampleAt = [3]int64{Steps + bound*3/2, Steps + bound*2, Steps + bound*2}
+	sampleN = 0
+	Samples = [3][]string{}
+}
+
+// Disarm switches the budget off.
+func Disarm() {
+	Limit = 0
+	SampleAt[0] = 0
+}
+
+func captureStack() []string {
+	pcs := make([]uintptr, 128)
+	n := runtime.Callers(3, pcs)
+	frames := runtime.CallersFrames(pcs[:n])
+	const lib = "github.com/go-ap/activitypub."
+	var out []string
+	for {
+		f, more := frames.Next()
+		if strings.HasPrefix(f.Function, lib) && !strings.HasPrefix(f.Function, lib+"verifsim") {
+			fn := strings.TrimPrefix(f.Function, lib)
+			if i := strings.Index(fn, ".func"); i > 0 {
+				fn = fn[:i]
+			}
+			fn = strings.NewReplacer("(*", "", ")", "", "[...]", "").Replace(fn)
+			out = append(out, fn)
+		}
+		if !more {
+			break
+		}
+	}
+	// outermost first
+	for i, j := 0, len(out)-1; i < j; i, j = i+1, j-1 {
+		out[i], out[j] = out[j], out[i]
+	}
+	return out
+}
+
+// LoopHolder names, from the stack samples taken past the bound, the innermost
+// decoding function that was on the stack every time: the function whose loop
+// (or recursion) the time went into.
+func LoopHolder() string {
+	var common []string
+	first := true
+	for _, s := range Samples {
+		if s == nil {
+			continue
+		}
+		if first {
+			common = append([]string(nil), s...)
+			first = false
+			continue
+		}
+		n := 0
+		for n < len(common) && n < len(s) && common[n] == s[n] {
+			n++
+		}
+		common = common[:n]
+	}
+	for i := len(common) - 1; i >= 0; i-- {
+		f := common[i]
+		base := f[strings.LastIndex(f, ".")+1:]
+		for _, p := range []string{"JSON", "json", "gob", "Gob", "unmap", "tryDecode", "Unmarshal", "decode", "Decode", "as", "load", "Load"} {
+			if strings.HasPrefix(base, p) {
+				return f
+			}
+		}
+	}
+	if len(common) > 0 {
+		return common[len(common)-1]
+	}
+	return "unknown"
 }
 
 // Blocked is the BlockedHook outside a scheduled run: a single goroutine that
